@@ -252,6 +252,8 @@ def line_search(
     f_m1 = f0
     dphi_m1 = dphi0
     _iter = 0
+    best_stp: Optional[float] = None
+    best_f: float = f0
 
     if not is_use_minpack2:
         # careful, there is an issue in the DCSRRCH.__call__ function. It returns
@@ -291,12 +293,12 @@ def line_search(
             )
 
         if task[:2] == b"FG":
-            stp_old: float = copy(steplength_0)
-            f_m1_old: float = copy(f_m1)
             steplength_0 = steplength
             f_m1, dphi_m1 = sf.fun_and_grad(np.clip(x0 + steplength * d, lb, ub))
             dphi_m1 = dphi_m1.dot(d)
-            best_stp = steplength if f_m1 < f_m1_old else stp_old
+            if f_m1 < best_f:
+                best_f = f_m1
+                best_stp = steplength
         else:
             break
         _iter += 1
@@ -310,6 +312,10 @@ def line_search(
             return None
 
     if task[:4] != b"CONV" and task[:4] != b"WARN":
+        return None
+
+    # no trial point is strictly better than the starting point
+    if best_stp is None:
         return None
 
     steplength = best_stp
